@@ -51,7 +51,9 @@ TRANSLATORS = {
     "C11": _T + "harness/py2v_digest.py + coq/lib/PyDigest.v (check_response,"
            " check_credentials, check_digest handler -> gen/DigestGen.v)",
     "C13": _T + "harness/py2v_hidden.py + coq/lib/PyBytes.v (session.hidden "
-           "-> gen/HiddenGen.v)",
+           "-> gen/HiddenGen.v); harness/py2v_session.py + "
+           "coq/lib/PySession.v (PoorSession.write/destroy/load/header -> "
+           "gen/SessionGen.v)",
     "C15": _T + "harness/py2pages.py (nine page functions of results.py -> "
            "gen/PagesGen.v)",
     "C16": _T + "harness/py2v.py + coq/lib/Py.v (get_token, check_token -> "
@@ -64,13 +66,17 @@ TRANSLATORS.update({
     "C10": _T + "harness/py2v_form.py + coq/lib/PyForm.v (Args, "
            "FieldStorage / EmptyForm / JsonDict / JsonList accessors, "
            "parse_json_request, decision skeleton of Request.__init__ -> "
-           "gen/FormGen.v)",
+           "gen/FormGen.v); harness/py2v_envhdr.py + coq/lib/PyEnvHdr.v "
+           "(head of Request.__init__: headers from the CGI variables, "
+           "media type, charset, content length -> gen/EnvHdrGen.v)",
     "C12": _T + "harness/py2v_static.py + coq/lib/PyStatic.v (static part "
            "of handler_from_table, document_root/document_index properties, "
            "directory_index filter loop -> gen/StaticGen.v)",
     "C08": _T + "harness/py2v_multipart.py + coq/lib/PyMultipart.v "
            "(read_lines_to_outerboundary, _write, make_file, valid_boundary "
-           "-> gen/MultipartGen.v)",
+           "-> gen/MultipartGen.v); harness/py2v_multi.py + "
+           "coq/lib/PyMulti.v (_skip_to_boundary, skip_lines, read_multi -> "
+           "gen/MultiGen.v)",
     "C14": _T + "harness/py2v_headers.py + coq/lib/PyHeaders.v (class "
            "Headers -> gen/HeadersGen.v)",
     "C17": _T + "harness/py2v_shared.py (syntactic census of process-wide "
@@ -81,7 +87,10 @@ TRANSLATORS.update({
     "C19": _T + "harness/py2v_registry.py + coq/lib/PyRegistry.v (the "
            "registration methods of Application -> gen/RegistryGen.v)",
 })
-TRANSLATORS["C03"] = TRANSLATORS["C04"] = TRANSLATORS["C01"]
+TRANSLATORS["C03"] = TRANSLATORS["C01"]
+TRANSLATORS["C04"] = TRANSLATORS["C01"] + (
+    "; harness/py2v_abort.py + coq/lib/PyAbort.v (HTTPException, abort, "
+    "redirect, RedirectResponse.__init__ -> gen/AbortGen.v)")
 TRANSLATORS["C20"] = TRANSLATORS["C02"]
 _INPUTS = ("; harness/py2v_inputs.py (census of string-keyed lookups and the "
            "dispatch footprint in wsgi.py / request.py -> gen/InputsGen.v, "
